@@ -125,6 +125,7 @@ def check(spec, ctx):
             raise Violation("header:channel-labels", f"{ctxt}: rows are delivered in descending frequency {freqs_desc.tolist()[:4]}.. but labelled {labels.tolist()[:4]}.. (fch1={hdr.fch1!r} foff={hdr.foff!r})")
         # ---- whole read = planted model
         W = np.asarray(whole.data)
+        W_snapshot = np.array(W, copy=True)
         require(W.shape == (nchan, N) and whole.header.nsamples == N, "whole:shape", f"{ctxt}: {W.shape}")
         if not np.allclose(W, model, rtol=2e-6, atol=1e-6 * (np.abs(model).max() + 1)):
             bad = np.argwhere(~np.isclose(W, model, rtol=2e-6, atol=1e-6 * (np.abs(model).max() + 1)))[0]
@@ -226,6 +227,9 @@ def check(spec, ctx):
         a, b = both("compute_stats", st_)
         if not np.allclose(a, b, rtol=1e-5, atol=1e-4):
             raise Violation("twin:compute_stats", f"{ctxt} gulp={g}")
+    # the block returned by the very first read belongs to the caller: none of the later reads may have changed it
+    if not np.array_equal(np.asarray(whole.data), W_snapshot, equal_nan=True):
+        raise Violation("whole:earlier-result-changed-by-later-reads", f"{ctxt}")
     lab = [lay, f"{spec['nbits']}bit", "ascending" if spec["df"] > 0 else "descending", cal]
     if spec["nstot"] is not None:
         lab.append("nstot_short")
